@@ -151,10 +151,14 @@ Lemma st_with_var_handle x m : pres Rst m -> pres Rst (with_var_handle x m). Pro
 Lemma st_assert_running_is_child n : pres Rst (assert_running_is_child n). Proof. prim assert_running_is_child. Qed.
 Global Hint Resolve st_assert_running_is_child : pres_st.
 Lemma st_expert_make_stale n : pres Rst (expert_make_stale n). Proof. prim expert_make_stale. Qed.
-Lemma st_expert_add_dependency fuel n c cb : pres Rst (expert_add_dependency fuel n c cb). Proof. prim expert_add_dependency. Qed.
 Lemma st_expert_swap n a b c d : pres Rst (expert_swap_children_except_in_kind n a b c d).
 Proof. prim expert_swap_children_except_in_kind. Qed.
-Global Hint Resolve st_expert_make_stale st_expert_add_dependency st_expert_swap : pres_st.
+Global Hint Resolve st_expert_make_stale st_expert_swap : pres_st.
+Lemma st_expert_add_dependency fuel n c cb : pres Rst (expert_add_dependency fuel n c cb). Proof. prim expert_add_dependency. Qed.
+Global Hint Resolve st_expert_add_dependency : pres_st.
+Lemma st_ex_swap_children x a b : pres Rst (ex_swap_children x a b). Proof. prim ex_swap_children. Qed.
+Lemma st_ex_pop_child_edge x : pres Rst (ex_pop_child_edge x). Proof. prim ex_pop_child_edge. Qed.
+Global Hint Resolve st_ex_swap_children st_ex_pop_child_edge : pres_st.
 Lemma st_expert_remove_dependency fuel n e : pres Rst (expert_remove_dependency fuel n e). Proof. prim expert_remove_dependency. Qed.
 Lemma st_expert_invalidate fuel n : pres Rst (expert_invalidate fuel n). Proof. prim expert_invalidate. Qed.
 Lemma st_slot_get sl : pres Rst (slot_get sl). Proof. prim slot_get. Qed.
